@@ -124,7 +124,8 @@ pub fn run_job(job: &Job) -> Value {
     }));
     let (res, msg, bytes, ev, consumed) = match outcome {
         Ok((Ok(b), ev, c)) => ("ok", String::new(), b, ev, c),
-        Ok((Err(m), ev, c)) => ("err", m, Vec::new(), ev, c),
+        // a failed call has no bytes to check its events against: the record carries the failure only
+        Ok((Err(m), ev, c)) => ("err", format!("{m} (after {} recorded events)", ev.len()), Vec::new(), Vec::new(), c),
         Err(p) => {
             let ev = verif::stop_recording();
             let m = p
@@ -132,7 +133,7 @@ pub fn run_job(job: &Job) -> Value {
                 .cloned()
                 .or_else(|| p.downcast_ref::<&str>().map(|s| s.to_string()))
                 .unwrap_or_else(|| "panic".into());
-            ("panic", m, Vec::new(), ev, -1)
+            ("panic", format!("{m} (after {} recorded events)", ev.len()), Vec::new(), Vec::new(), -1)
         }
     };
     // the input bytes travel to TLC only where the entropy model applies (no mutators, moderate size)
